@@ -41,6 +41,8 @@ fn op_name(op: &TmOp) -> &'static str {
         TmOp::NhReach { .. } => "update_nexthop_validity",
         TmOp::Subscribe => "subscribe",
         TmOp::Unsubscribe(_) => "unsubscribe",
+        TmOp::InsertLocal { .. } => "insert-local",
+        TmOp::RemoveLocal { .. } => "remove-local",
     }
 }
 
@@ -136,6 +138,9 @@ fn arb_writer() -> impl Strategy<Value = TmOp> {
     prop_oneof![
         8 => (0u8..N_PEERS, 0u8..N_PREFIX, 0u8..2, 0u8..6, 0u8..N_NH).prop_map(|(peer, prefix, path_id, attrs, nh)| TmOp::Insert { peer, prefix, path_id, attrs, nh }),
         4 => (0u8..N_PEERS, 0u8..N_PREFIX, 0u8..2).prop_map(|(peer, prefix, path_id)| TmOp::Remove { peer, prefix, path_id }),
+        // FlowSpec routes: no next hop
+        3 => (0u8..N_PEERS, 0u8..2, 0u8..2, 0u8..6).prop_map(|(peer, prefix, path_id, attrs)| TmOp::Insert { peer, prefix: crate::props::tmrig::FLOWSPEC_PREFIX_BASE + prefix, path_id, attrs, nh: 0 }),
+        1 => (0u8..N_PEERS, 0u8..2, 0u8..2).prop_map(|(peer, prefix, path_id)| TmOp::Remove { peer, prefix: crate::props::tmrig::FLOWSPEC_PREFIX_BASE + prefix, path_id }),
         1 => (0u8..N_PEERS).prop_map(|peer| TmOp::DropPeer { peer }),
         2 => (0u8..N_PEERS, 0u8..3).prop_map(|(peer, policy)| TmOp::SoftResetIn { peer, policy }),
     ]
